@@ -622,7 +622,10 @@ class Gen:
             slo, shi = low + off, high + off
             full = all(slo.rng(e) == dim[0].rng(e) and
                        shi.rng(e) == dim[1].rng(e) for e in scope.envs)
-            if full and stride == 1 and self.chance(50):
+            # ':' on an array whose lower bound is not 1 triggers a
+            # recorded finding: keep it rare
+            colon = 50 if dim[0].text() == "1" else 12
+            if full and stride == 1 and self.chance(colon):
                 sec = ":"
             else:
                 sec = f"{slo.text()}:{shi.text()}"
@@ -660,7 +663,8 @@ class Gen:
                    high.rng(e) == dim[1].rng(e) for e in scope.envs)
         for num, odim in enumerate(var.dims):
             if num == pos:
-                if full and stride == 1 and self.chance(50):
+                colon = 50 if dim[0].text() == "1" else 12
+                if full and stride == 1 and self.chance(colon):
                     idx.append(":")
                 else:
                     idx.append(f"{low.text()}:{high.text()}" +
